@@ -106,6 +106,10 @@ EntryFails(S, G, e) ==
   IF ~Has(e, "vis") THEN { "PROJ visibility expression of " \o name \o " could not be evaluated" }
   ELSE Chk(Range(e.vis) = Vis(S, name),
            "visibility of " \o name \o " is " \o ToJson(Range(e.vis)) \o " but the stages statically using it are " \o ToJson(Vis(S, name)))
+RECURSIVE NodesAddr(_)
+NodeAddr(n) == IF n.k = "access" THEN n.how = "addr" ELSE IF n.k = "block" THEN NodesAddr(n.items) ELSE FALSE
+NodesAddr(ns) == \E i \in DOMAIN ns : NodeAddr(ns[i])
+AddrOnlyFree(S) == ~(\E i \in DOMAIN S.functions : NodesAddr(S.functions[i].body)) /\ ~(\E i \in DOMAIN S.entries : NodesAddr(S.entries[i].body))
 PushExpected(S) == LET pc == PushGlobals(S)[1].name IN IF Vis(S, pc) # {} THEN Vis(S, pc) ELSE EntryStages(S)
 PushUsed(S) == PushGlobals(S) # << >> /\ Vis(S, PushGlobals(S)[1].name) # {}
 C03(c, o) ==
@@ -119,7 +123,10 @@ C03(c, o) ==
                           "PUSH_CONSTANT_STAGES is " \o ToJson(Range(o.out.push_stages.stages)) \o " but the push constant is used by " \o ToJson(PushExpected(S)))
                  ELSE { "PUSH_CONSTANT_STAGES missing or not evaluable although a push constant is used" }
             ELSE {})
-      \cup UNION { Chk(Range(o.oracle.vis[Resources(S)[i].name]) = Vis(S, Resources(S)[i].name),
+      (* naga's use analysis counts reads, writes and queries; a variable that is only named (`&v`) is a static use it does not report, *)
+      (* so it is a lower bound in general and exact for shaders without address-only accesses                                           *)
+      \cup UNION { Chk(Range(o.oracle.vis[Resources(S)[i].name]) \subseteq Vis(S, Resources(S)[i].name)
+                       /\ (AddrOnlyFree(S) => Range(o.oracle.vis[Resources(S)[i].name]) = Vis(S, Resources(S)[i].name)),
                        "ORACLE naga global use of " \o Resources(S)[i].name \o " disagrees with Vis") : i \in DOMAIN Resources(S) } ]
 
 (* C03 on the values the compiled module really passes to the device (recording shim): every create_bind_group_layout
